@@ -327,6 +327,45 @@ def install(prog):
             return err(io_error('Permission denied (os error 13)'))
         return ok(Agg('Sink', None, (CellV(()),), ) if False else Agg('OutFile', None, (p,)))
 
+    # std::fs::OpenOptions: the flags are kept; open() records how the file was opened. `create` events mean
+    # create-or-truncate (File::create); a file opened for writing *without* truncation keeps its old bytes beyond what is written.
+    @B('OpenOptions::new', 'std::fs::OpenOptions::new', 'File::options', 'std::fs::File::options')
+    def b_oo_new(ctx, a, callee):
+        return Agg('OpenOptions', None, (CellV({}),))
+
+    @B('re:^(std::fs::)?OpenOptions::(read|write|append|truncate|create|create_new)$')
+    def b_oo_flag(ctx, a, callee):
+        o = D(a[0])
+        d = dict(o.fields[0].slot[0])
+        d[callee.rsplit('::', 1)[1]] = bool(a[1])
+        o.fields[0].slot[0] = d
+        return a[0]
+
+    @B('OpenOptions::open', 'std::fs::OpenOptions::open')
+    def b_oo_open(ctx, a, callee):
+        fl = dict(D(a[0]).fields[0].slot[0])
+        p = to_path(a[1]).to_str()
+        ctx_cwd[0] = ctx.cwd
+        ctx_links[0] = ctx.links
+        rp = os_path(p)
+        exists = rp in ctx.fs
+        writing = fl.get('write') or fl.get('append')
+        if not writing:
+            if not exists:
+                return err(io_error('No such file or directory (os error 2)'))
+            return ok(Agg('InFile', None, (rp,)))
+        if not exists and not (fl.get('create') or fl.get('create_new')):
+            return err(io_error('No such file or directory (os error 2)'))
+        if exists and fl.get('create_new'):
+            return err(io_error('File exists (os error 17)'))
+        if ctx.fs.get('!create:' + p):
+            return err(io_error('Permission denied (os error 13)'))
+        if fl.get('truncate') and not fl.get('append'):
+            ctx.event('create', p)
+        else:
+            ctx.event('open-keep', p, 'append' if fl.get('append') else 'overwrite')
+        return ok(Agg('OutFile', None, (p,)))
+
     @B('re:^<(OutFile|std::fs::File|File) as (std::io::)?Write>::(write_fmt|write_all|write)$')
     def b_outfile_write(ctx, a, callee):
         f = D(a[0])
@@ -365,8 +404,36 @@ def install(prog):
 
     @B('Path::is_dir')
     def b_path_is_dir(ctx, a, callee):
-        p = to_path(a[0]).to_str()
-        return any(k.startswith(p.rstrip('/') + '/') for k in ctx.fs)
+        ctx_cwd[0] = ctx.cwd
+        ctx_links[0] = ctx.links
+        p = os_path(a[0])
+        return any(type(k) is str and k.startswith(p.rstrip('/') + '/') for k in ctx.fs)
+
+    @B('read_dir', 'std::fs::read_dir')
+    def b_read_dir(ctx, a, callee):
+        """directory listing from the virtual file system (entries in name order; the real order is unspecified)"""
+        from .bi_core import it_seq
+        ctx_cwd[0] = ctx.cwd
+        ctx_links[0] = ctx.links
+        given = to_path(a[0])
+        p = os_path(a[0]).rstrip('/')
+        names = set()
+        for k in ctx.fs:
+            if type(k) is str and k.startswith(p + '/') and not k.startswith('!'):
+                names.add(k[len(p) + 1:].split('/')[0])
+        if not names and p not in ctx.fs:
+            return err(io_error('No such file or directory (os error 2)'))
+        if p in ctx.fs:
+            return err(io_error('Not a directory (os error 20)'))
+        return ok(it_seq([ok(Agg('DirEntry', None, (PathV(given.absolute, given.trimmed() + (n,)),))) for n in sorted(names)]))
+
+    @B('DirEntry::path', 'std::fs::DirEntry::path')
+    def b_direntry_path(ctx, a, callee):
+        return D(a[0]).fields[0]
+
+    @B('DirEntry::file_name', 'std::fs::DirEntry::file_name')
+    def b_direntry_file_name(ctx, a, callee):
+        return D(a[0]).fields[0].trimmed()[-1]
 
     @B('var', 'std::env::var')
     def b_env_var(ctx, a, callee):
